@@ -9,10 +9,14 @@ From TS Require Proofs.C10Lex Proofs.C10_TS Proofs.C10_TSFile Proofs.C10_KT Proo
                 Proofs.C10_SW Proofs.C10_SWFile Proofs.C10_PY Proofs.C10_PYFile Proofs.C10_KW Proofs.C10.
 From TS Require Import Spec.C10TsGrammar.
 From TS Require Proofs.C10_TSGrammarTok Proofs.C10_TSGrammarParse Proofs.C10_TSGrammar Proofs.C10_TSGrammarFile.
+From TS Require Import Spec.C10KtGrammar.
+From TS Require Proofs.C10_KTGrammarTok Proofs.C10_KTGrammarParse Proofs.C10_KTGrammar Proofs.C10_KTGrammarFile Proofs.C10_KTGrammarMulti.
 From TS Require Import Model.MultiFile Spec.C10MultiSpec.
 From TS Require Model.Writer Proofs.C10Multi Proofs.C10MultiWitness.
 From TS Require Import Spec.C10GoGrammar.
 From TS Require Proofs.C10_GOGrammarTok Proofs.C10_GOGrammarSemi Proofs.C10_GOGrammarParse Proofs.C10_GOGrammar Proofs.C10_GOGrammarFile.
+From TS Require Import Spec.C10SwGrammar.
+From TS Require Proofs.C10_SWGrammarTok Proofs.C10_SWGrammarParse Proofs.C10_SWGrammarDecl Proofs.C10_SWGrammar Proofs.C10_SWGrammarFile.
 
 (* ---------------------------------------------------------------- the lexers *)
 (* the lexer never looks below the bracket stack it started with: a text that is balanced on its own
@@ -573,3 +577,301 @@ Theorem C10_go_keyword_name_refuted :
     go_generate uc_exec cfg pd = Ok text /\ contains_sub (lit "type switch struct{") text = true /\ c10_go_recognise text = None.
 Proof. exact Proofs.C10_GOGrammarFile.go_keyword_name_refuted. Qed.
 Print Assumptions C10_go_keyword_name_refuted.
+(* ================================================================ (3') the GRAMMAR half, Kotlin
+   "the recogniser" = c10_kt_recognise of Spec/C10KtGrammar.v: a tokenizer (identifiers incl. back-ticked ones, string
+   literals with the language's escapes, line comments, nesting block comments, annotations glued to their at-sign) and a
+   recursive-descent parser, with explicit fuel, of the Kotlin declaration subset written from the Kotlin grammar
+   (kotlinFile, packageHeader, importHeader, typeAlias, classDeclaration, objectDeclaration, functionDeclaration,
+   primaryConstructor, classParameter, delegationSpecifier, classBody, enumClassBody, enumEntry, typeParameters, type,
+   userType, typeArguments, modifiers, annotation, valueArguments).  checks/c10.py runs its extraction (driver command
+   c10_kt_parse) on every real Kotlin file, single-file and folder mode; Some n = package header, imports and n
+   well-formed top-level declarations.
+
+   The tokenizer is compositional at token boundaries: if the text b does not start with an identifier character, a star,
+   a slash or a double quote, or the text a ends with a character that is none of identifier character, slash, double
+   quote (glue a b), the tokens of a ++ b are the tokens of a followed by the tokens of b - with exactly the fuel the
+   recogniser gives it. *)
+Theorem C10_kt_tokens_frame :
+  forall (a : str) (ta : list c10_tok) (b : str) (tb : list c10_tok),
+    c10k_tokens (S (List.length a)) a = Some ta -> c10k_tokens (S (List.length b)) b = Some tb ->
+    Proofs.C10_KTGrammarTok.glue a b = true ->
+    c10k_tokens (S (List.length (a ++ b))) (a ++ b) = Some (ta ++ tb).
+Proof. exact Proofs.C10_KTGrammarTok.tokens_frame. Qed.
+Print Assumptions C10_kt_tokens_frame.
+
+(* The type parser is complete for the declarative grammar Gr of Proofs/C10_KTGrammarParse.v (simpleUserType, userType
+   with dots, type with any number of nullable marks, typeArguments, as an inductive family over token lists): the
+   tokens of a type followed by anything that does not start with [<], [.] or [?] are consumed exactly, with the fuel
+   the recogniser gives itself. *)
+Theorem C10_kt_type_grammar_complete :
+  forall (t rest : list c10_tok),
+    Proofs.C10_KTGrammarParse.Gr Proofs.C10_KTGrammarParse.STy t -> Proofs.C10_KTGrammarParse.fol rest ->
+    c10k_type (t ++ rest) = Some rest.
+Proof. exact Proofs.C10_KTGrammarParse.type_ok. Qed.
+Print Assumptions C10_kt_type_grammar_complete.
+
+(* The declaration parser is complete for class declarations given by their parts: modifiers (annotations with or
+   without arguments, modifier keywords), name, typeParameters, an optional primaryConstructor (each parameter one the
+   parameter recogniser consumes), an optional delegation `: UserType(args)`, an optional body that is enum entries
+   (exactly when `enum` is among the modifiers) or member declarations (each, recursively, a declaration the recogniser
+   consumes): the recogniser consumes exactly these tokens (DeclToks: whatever follows, provided it starts like a
+   declaration or closes a body, with every fuel from length + 2 on). *)
+Theorem C10_kt_class_grammar_complete :
+  forall (ms : list Proofs.C10_KTGrammarParse.kmod) (name : str) (gs : list str)
+         (ctor : option (list (list c10_tok))) (d : option (list c10_tok * list c10_tok)) (b : Proofs.C10_KTGrammarParse.kbody2),
+    Forall (Proofs.C10_KTGrammarParse.mod_wf c10k_is_mod) ms ->
+    match ctor with Some ps => Forall Proofs.C10_KTGrammarParse.ParamToks ps | None => True end ->
+    match d with
+    | Some (u, l) => Proofs.C10_KTGrammarParse.Gr Proofs.C10_KTGrammarParse.SUser u /\ Forall Proofs.C10_KTGrammarParse.expr_tok l
+    | None => True
+    end ->
+    match b with
+    | Proofs.C10_KTGrammarParse.B2None => True
+    | Proofs.C10_KTGrammarParse.B2Entries es =>
+      Proofs.C10_KTGrammarParse.mods_enum ms = true /\ Forall Proofs.C10_KTGrammarParse.EntryToks es
+    | Proofs.C10_KTGrammarParse.B2Members mts =>
+      Proofs.C10_KTGrammarParse.mods_enum ms = false /\ Forall Proofs.C10_KTGrammarParse.DeclToks mts
+    end ->
+    Proofs.C10_KTGrammarParse.DeclToks
+      (Proofs.C10_KTGrammarParse.mods_toks ms ++ Proofs.C10_KTGrammarParse.kw "class" :: KIdent name ::
+       Proofs.C10_KTGrammarParse.gens_toks gs ++ Proofs.C10_KTGrammarParse.octor_toks ctor ++
+       Proofs.C10_KTGrammarParse.odeleg_toks d ++ Proofs.C10_KTGrammarParse.body_toks (Proofs.C10_KTGrammarParse.body2 b)).
+Proof. exact Proofs.C10_KTGrammarParse.decltoks_class. Qed.
+Print Assumptions C10_kt_class_grammar_complete.
+
+(* Layout layer, all declarations: the concatenated text of ANY list of Kotlin declarations (object, data class with or
+   without the redacted toString body, typealias, value class with or without the redacted body, enum class, sealed class
+   with object / data class variants) that are well-formed for the grammar - names, generic parameters, parameter names,
+   entry names and the content key identifiers; doc lines without a line end; serial names key-shaped and not empty; the
+   wire name of a variant not empty and free of quote, backslash and line end; every type tree made of identifier names,
+   nullable marks and verbatim leaves that are types of the grammar - is accepted, as exactly that many declarations. *)
+Theorem C10_kt_layout_grammar :
+  forall ds : list kt_decl, Forall Proofs.C10_KTGrammar.c10_ktg_decl_ok ds ->
+    c10_kt_recognise (List.concat (map kt_render_decl ds)) = Some (List.length ds).
+Proof. exact Proofs.C10_KTGrammarFile.kt_decls_recognised. Qed.
+Print Assumptions C10_kt_layout_grammar.
+
+(* Whole files, from the IR: for every program of dom_C10 and every admissible configuration (the hypotheses of
+   C10_lex_kotlin), strengthened by what the grammar needs -
+     c10_ktg_cfg_ok: every type_mappings value is the text of a type of the grammar (TyText: it tokenises, as an open
+       fragment, to a type of Gr - `String`, `java.net.URI`, `Map<String, List<Int>?>`); the prefix, if any, is
+       identifier-shaped (it heads every declared name: a prefix starting with a digit is excluded); the package, if any,
+       is a dotted sequence of identifiers (a package segment with a dash or a plus, admitted by the lexical theorem, is
+       excluded);
+     c10_ktg_dom: every constructor parameter name (renamed field name, dashes replaced) is an identifier (the finding
+       class C10-digit-name is outside), every Kotlin type override is the text of a type of the grammar, the content
+       key of an algebraic enum is an identifier (it is printed as a parameter name: a dashed content key is excluded)
+       and the PascalCase of each of its variant names is not empty (a variant named with underscores only, whose class
+       would have no name, is excluded) -
+   the recogniser accepts the generated file: version header, package line, fixed imports, every declaration; it finds
+   at least one top-level declaration per item.  (kt_generate never succeeds on a constant: the statement is about
+   structs, enums and aliases.) *)
+Theorem C10_grammar_kotlin :
+  forall (uc : unicode) (cfg : kt_config) (pd : parsed) (text : str),
+    Proofs.C10_KT.c10_kt_cfg_ok cfg = true -> Proofs.C10_KTGrammarFile.c10_ktg_cfg_ok cfg ->
+    dom_C10 CKT pd = true -> Proofs.C10_KTGrammarFile.c10_ktg_dom pd ->
+    kt_generate uc cfg pd = Ok text ->
+    exists n : nat, c10_kt_recognise text = Some n /\ (List.length (items_of pd) <= n)%nat.
+Proof. exact Proofs.C10_KTGrammarFile.kt_generate_recognised. Qed.
+Print Assumptions C10_grammar_kotlin.
+
+(* The same with COMPUTABLE extra hypotheses: every type_mappings value and every Kotlin type override is
+   identifier-shaped (String, Instant, MyType ...), the prefix empty or identifier-shaped, the package empty or split by
+   its dots into identifiers; parameter names, content keys and variant names as above *)
+Theorem C10_grammar_kotlin_simple :
+  forall (uc : unicode) (cfg : kt_config) (pd : parsed) (text : str),
+    Proofs.C10_KT.c10_kt_cfg_ok cfg = true -> Proofs.C10_KTGrammarFile.c10_ktg_cfg_simple cfg = true ->
+    dom_C10 CKT pd = true -> Proofs.C10_KTGrammarFile.c10_ktg_dom_simple pd = true ->
+    kt_generate uc cfg pd = Ok text ->
+    exists n : nat, c10_kt_recognise text = Some n /\ (List.length (items_of pd) <= n)%nat.
+Proof. exact Proofs.C10_KTGrammarFile.kt_generate_recognised_simple. Qed.
+Print Assumptions C10_grammar_kotlin_simple.
+
+(* The hypotheses are satisfiable and acceptance means something: a program with a documented, redacted generic data class
+   (String, nullable, List, a type mapped to the qualified java.net.URI, HashMap of a generic application, a dashed key
+   printed with @SerialName and a doubly nullable defaulted type, a defaulted non-optional field, a verbatim override
+   `Map<String, List<Int>?>`), an empty struct (object), a generic typealias, a redacted @JvmInline value class, an enum
+   class and a generic sealed class with object / data class variants (one named after a digit-initial variant, one
+   referring to its generic Inner helper class) under a prefix, a dotted package and a version header is in the domain,
+   in no finding class, and its file is accepted as 7 declarations; the same text without its last three characters,
+   without its first opening parenthesis, with its first `=` turned into `:`, or without its first comma is rejected;
+   and so are `object Tag<T>`, `object Tag(val x: Int)`, `typealias A<> = Int`, `typealias A Int`, a constructor
+   parameter without a type, a class without a name and an unterminated string (while `object Tag` is one declaration). *)
+Theorem C10_grammar_kotlin_witness :
+  Proofs.C10_KT.c10_kt_cfg_ok Proofs.C10_KTGrammarFile.kg_cfg = true /\ Proofs.C10_KTGrammarFile.c10_ktg_cfg_ok Proofs.C10_KTGrammarFile.kg_cfg /\
+  dom_C10 CKT Proofs.C10_KTGrammarFile.kg_prog = true /\ Proofs.C10_KTGrammarFile.c10_ktg_dom Proofs.C10_KTGrammarFile.kg_prog /\
+  known_C10 CKT [] Proofs.C10_KTGrammarFile.kg_prog = [] /\
+  kt_generate uc_exec Proofs.C10_KTGrammarFile.kg_cfg Proofs.C10_KTGrammarFile.kg_prog = Ok Proofs.C10_KTGrammarFile.kg_text /\
+  c10_kt_recognise Proofs.C10_KTGrammarFile.kg_text = Some 7%nat /\
+  contains_sub (lit "data class OPPerson<T, U> (") Proofs.C10_KTGrammarFile.kg_text = true /\
+  contains_sub (lit "val first_name: String?? = null,") Proofs.C10_KTGrammarFile.kg_text = true /\
+  contains_sub (lit "typealias OPAl<T> = List<T>?") Proofs.C10_KTGrammarFile.kg_text = true /\
+  contains_sub (lit "enum class OPColor(val string: String) {") Proofs.C10_KTGrammarFile.kg_text = true /\
+  contains_sub (lit "data class S<T>(val content: OPESInner<T>): OPE<T>()") Proofs.C10_KTGrammarFile.kg_text = true /\
+  c10_kt_recognise (firstn (List.length Proofs.C10_KTGrammarFile.kg_text - 3) Proofs.C10_KTGrammarFile.kg_text) = None /\
+  c10_kt_recognise (Proofs.C10_KTGrammarFile.kg_drop_first 40 Proofs.C10_KTGrammarFile.kg_text) = None /\
+  c10_kt_recognise (Proofs.C10_KTGrammarFile.kg_subst_first 61 58 Proofs.C10_KTGrammarFile.kg_text) = None /\
+  c10_kt_recognise (Proofs.C10_KTGrammarFile.kg_drop_first 44 Proofs.C10_KTGrammarFile.kg_text) = None /\
+  c10_kt_recognise (lit "@Serializable" ++ nl ++ lit "object Tag" ++ nl) = Some 1%nat /\
+  c10_kt_recognise (lit "@Serializable" ++ nl ++ lit "object Tag<T>" ++ nl) = None /\
+  c10_kt_recognise (lit "@Serializable" ++ nl ++ lit "object Tag(val x: Int)" ++ nl) = None /\
+  c10_kt_recognise (lit "typealias A<> = Int" ++ nl) = None /\
+  c10_kt_recognise (lit "typealias A Int" ++ nl) = None /\
+  c10_kt_recognise (lit "@Serializable" ++ nl ++ lit "data class A(val x)" ++ nl) = None /\
+  c10_kt_recognise (lit "@Serializable" ++ nl ++ lit "data class (val x: Int)" ++ nl) = None /\
+  c10_kt_recognise (lit "@SerialName(""a) object A" ++ nl) = None.
+Proof. exact Proofs.C10_KTGrammarFile.kt_grammar_witness. Qed.
+Print Assumptions C10_grammar_kotlin_witness.
+
+(* Kotlin, MULTI-FILE (folder output) mode, one crate's file (kt_generate_multi: `package <package>.<crate>`, the fixed
+   imports, one `import <package>.<crate>.<prefix><Type>` per imported type, every declaration): under the hypotheses of
+   C10_grammar_kotlin, a package that is not empty (the real CLI demands one for Kotlin; without it the import lines would
+   start with a dot), a crate name that is an identifier (c10_crate_ok of the lexical theorem also admits a leading digit
+   - a Cargo package `3d-tools` gives `package p.3d_tools`, which is not a package header - and dashes, which
+   find_crate_name replaces: both excluded) and an import map of identifier-shaped crate and type names, the recogniser
+   accepts the file and finds at least one top-level declaration per item. *)
+Theorem C10_grammar_kotlin_multi :
+  forall (uc : unicode) (cfg : kt_config) (c : str) (im : scoped) (pd : parsed) (text : str),
+    Proofs.C10_KT.c10_kt_cfg_ok cfg = true -> Proofs.C10_KTGrammarFile.c10_ktg_cfg_ok cfg -> kt_package cfg <> [] ->
+    dom_C10 CKT pd = true -> Proofs.C10_KTGrammarFile.c10_ktg_dom pd ->
+    Proofs.C10_KTGrammarTok.c10k_ident_ok c = true -> Proofs.C10_KTGrammarMulti.c10_ktg_imports_ok im ->
+    kt_generate_multi uc cfg c im pd = Ok text ->
+    exists n : nat, c10_kt_recognise text = Some n /\ (List.length (items_of pd) <= n)%nat.
+Proof. exact Proofs.C10_KTGrammarMulti.kt_generate_multi_recognised. Qed.
+Print Assumptions C10_grammar_kotlin_multi.
+
+(* its hypotheses are satisfiable: the witness program above as the crate app_core importing two types of lib_crate is
+   accepted as 7 declarations with its package and import lines (the imported names carry the prefix OP of the configuration); a package segment that starts with a digit and an import
+   of a crate named with a dash are rejected *)
+Theorem C10_grammar_kotlin_multi_witness :
+  Proofs.C10_KTGrammarTok.c10k_ident_ok (lit "app_core") = true /\
+  Proofs.C10_KTGrammarMulti.c10_ktg_imports_ok Proofs.C10_KTGrammarMulti.kgm_imports /\
+  kt_package Proofs.C10_KTGrammarFile.kg_cfg <> [] /\
+  kt_generate_multi uc_exec Proofs.C10_KTGrammarFile.kg_cfg (lit "app_core") Proofs.C10_KTGrammarMulti.kgm_imports Proofs.C10_KTGrammarFile.kg_prog
+    = Ok Proofs.C10_KTGrammarMulti.kgm_text /\
+  c10_kt_recognise Proofs.C10_KTGrammarMulti.kgm_text = Some 7%nat /\
+  contains_sub (lit "package com.agilebits.onepassword.app_core") Proofs.C10_KTGrammarMulti.kgm_text = true /\
+  contains_sub (lit "import com.agilebits.onepassword.lib_crate.OPNode") Proofs.C10_KTGrammarMulti.kgm_text = true /\
+  c10_kt_recognise (lit "package com.p.3d_tools" ++ nl) = None /\
+  c10_kt_recognise (lit "package com.p.lib" ++ nl ++ lit "import com.p.lib-crate.Item" ++ nl) = None.
+Proof. exact Proofs.C10_KTGrammarMulti.C10_kt_grammar_multi_nonvacuous. Qed.
+Print Assumptions C10_grammar_kotlin_multi_witness.
+
+(* ---------------------------------------------------------------- (3'') the GRAMMAR half, Swift *)
+
+(* "the recogniser" = c10_sw_recognise of Spec/C10SwGrammar.v: the tokenizer of the Swift lexical structure (nested multiline comments,
+   line comments, identifiers and back-ticked identifiers, numbers, static string literals with the escapes of the language,
+   one-character punctuation; line breaks as tokens) and a recursive-descent parser of import / let / var / typealias / struct /
+   enum (raw-value and union style, indirect) / extension / init / func declarations with generic-parameter clauses, protocol
+   compositions, type-inheritance clauses, parameter clauses and the type grammar; the BODIES of init / func are only recognised
+   as balanced token runs.  checks/c10.py runs it on every real Swift file (driver command c10_sw_parse); Some n = a file with n
+   top-level declarations.
+
+   The tokenizer is compositional at token boundaries: if the text b does not start with an identifier / number character, a star
+   or a slash, or the text a ends with a character that is none of these (glue a b), and a opens no line comment or b starts a
+   new line (lcok a b), the tokens of a ++ b are those of a followed by those of b - with exactly the fuel the recogniser gives it. *)
+Theorem C10_sw_tokens_frame :
+  forall (a : str) (ta : list c10_wtok) (b : str) (tb : list c10_wtok),
+    c10_sw_tokens (S (List.length a)) a = Some ta -> c10_sw_tokens (S (List.length b)) b = Some tb ->
+    Proofs.C10_SWGrammarTok.glue a b = true -> Proofs.C10_SWGrammarTok.lcok a b = true ->
+    c10_sw_tokens (S (List.length (a ++ b))) (a ++ b) = Some (ta ++ tb).
+Proof. exact Proofs.C10_SWGrammarTok.sw_tokens_frame. Qed.
+Print Assumptions C10_sw_tokens_frame.
+
+(* The parser is complete for the declarative grammar WGr of Proofs/C10_SWGrammarParse.v (type-identifier with generic arguments and
+   dots, array / dictionary / tuple / optional types, argument lists - the type productions of the header comment of
+   Spec/C10SwGrammar.v as an inductive family over token lists): the tokens of a type followed by anything that does not start
+   with [<], [.] or [?] are consumed exactly, with the fuel the recogniser gives itself *)
+Theorem C10_sw_type_grammar_complete :
+  forall (t rest : list c10_wtok),
+    Proofs.C10_SWGrammarParse.WGr Proofs.C10_SWGrammarParse.STy t -> Proofs.C10_SWGrammarParse.fol rest ->
+    c10_sw_type (t ++ rest) = Some rest.
+Proof. exact Proofs.C10_SWGrammarParse.sw_type_ok. Qed.
+Print Assumptions C10_sw_type_grammar_complete.
+
+(* ... for the bodies of structs and enums: a sequence of members, each followed by a line break, up to the closing brace (Body P:
+   every member - a declaration or a case clause of the enum's style - is accepted from every place of P and ends in a place of P;
+   shown for stored properties, aliases, nested structs / enums, initializers and functions with balanced bodies, case clauses)
+   is consumed exactly ... *)
+Theorem C10_sw_body_grammar_complete :
+  forall (P : c10_sw_ctx -> Prop) (b : list c10_wtok), Proofs.C10_SWGrammarDecl.Body P b ->
+  forall ctx, P ctx -> forall rest f, (2 * List.length b + 2 <= f)%nat -> c10_sw_d f (WMembers ctx) (b ++ rest) = Some rest.
+Proof. exact Proofs.C10_SWGrammarDecl.body_ok. Qed.
+Print Assumptions C10_sw_body_grammar_complete.
+
+(* ... and for whole files: any sequence of declarations each of which the declaration parser consumes up to its line break
+   (FileToks; DeclOk is shown for import, let, typealias, struct, enum, indirect enum, init, func) is accepted, as exactly that
+   many declarations *)
+Theorem C10_sw_file_grammar_complete :
+  forall (n : nat) (ts : list c10_wtok), Proofs.C10_SWGrammarDecl.FileToks n ts ->
+  forall f, (List.length ts < f)%nat -> c10_sw_decls f ts = Some n.
+Proof. exact Proofs.C10_SWGrammarDecl.file_ok. Qed.
+Print Assumptions C10_sw_file_grammar_complete.
+
+(* Layout layer, whole files, PARTIAL (covered: version comment, import line, type aliases with parameters, String-backed enums
+   with generic constraints / conformance list / documented cases with and without raw value, the CodableVoid helper; MISSING: the
+   text of structs - stored properties, CodingKeys, init - and of algebraic enums - cases, CodingKeys, init(from:), encode(to:),
+   helper structs: their parser side is proved (C10_sw_body_grammar_complete and the lemmas decl_struct_ok, decl_init_ok,
+   decl_func_ok, clause_ok, block_ok of Proofs/C10_SWGrammarDecl.v), their text is only validated by the check and by the witness
+   below - and the step from the IR (sw_decl_of) to these declarations): under any version made of [A-Za-z0-9_.+-], the header
+   followed by the text of ANY list of such declarations that are well-formed for the grammar - declared names identifiers of the
+   language, back-ticked or not reserved; doc lines without a line break; raw values key-shaped; conformances and constraints
+   type-identifiers of the grammar (IdText); type trees whose names are type names and whose verbatim leaves are types of the
+   grammar (TyText) - is accepted, as one declaration (the import) more than the list is long. *)
+Theorem C10_swift_layout_grammar_partial :
+  forall (nv : bool) (version : str) (ds : list sw_decl),
+    c10_dotted_ok version = true -> Forall Proofs.C10_SWGrammar.c10_swg_decl_ok ds ->
+    c10_sw_recognise (Proofs.C10_SWGrammarFile.sw_header nv version ++ List.concat (map sw_render_decl ds)) = Some (S (List.length ds)).
+Proof. exact Proofs.C10_SWGrammarFile.sw_decls_recognised. Qed.
+Print Assumptions C10_swift_layout_grammar_partial.
+
+(* The hypotheses are satisfiable and acceptance means something: a program with a documented generic struct (string, optional,
+   array, unit, mapped, dictionary-of-generic-application members, a keyword-named property, a dashed key with CodingKeys, Swift
+   decorators and generic constraints), a generic alias, a String-backed enum (one case named default), an indirect generic
+   algebraic enum with unit / tuple / optional-tuple / struct variants is in dom_C10, in no finding class, and its file - version
+   comment, import, every declaration with CodingKeys / init / init(from:) / encode(to:), the helper struct, CodableVoid - is
+   accepted as 7 declarations; the same text without its last three characters, without its first opening brace, with its first
+   `=` turned into `:`, or without its first back-tick is rejected; two stored properties on two lines are accepted, on one line
+   rejected; `struct : Codable` (no name), `struct A<>` (empty parameter list), `let a` (no type), an enum with a raw value and a
+   payload are rejected; `init(class:)` is accepted, `init(let:)` rejected; the last conjuncts: the hypotheses of
+   C10_swift_layout_grammar_partial hold of a list with an alias, a generic String-backed enum named `default` and CodableVoid. *)
+Theorem C10_grammar_swift_witness :
+  Proofs.C10_SWFile.c10_sw_cfg_ok Proofs.C10_SWGrammarFile.w_cfg = true /\ dom_C10 CSW Proofs.C10_SWGrammarFile.w_prog = true /\
+  known_C10 CSW [] Proofs.C10_SWGrammarFile.w_prog = [] /\
+  sw_generate uc_exec Proofs.C10_SWGrammarFile.w_cfg Proofs.C10_SWGrammarFile.w_prog = Ok Proofs.C10_SWGrammarFile.w_text /\
+  c10_sw_recognise Proofs.C10_SWGrammarFile.w_text = Some 7%nat /\
+  contains_sub (lit "public struct OPPerson<T: Codable & Equatable & Hashable & Sendable, U: Codable & Sendable>: Codable, Sendable, Equatable {") Proofs.C10_SWGrammarFile.w_text = true /\
+  contains_sub (lit "public let `class`: Unicode.Scalar") Proofs.C10_SWGrammarFile.w_text = true /\
+  contains_sub (lit "public let index: [String: OPBox<U, [Bool]>]") Proofs.C10_SWGrammarFile.w_text = true /\
+  contains_sub (lit "public typealias OPAl<T> = [T]?") Proofs.C10_SWGrammarFile.w_text = true /\
+  contains_sub (lit "case `default` = ""Default""") Proofs.C10_SWGrammarFile.w_text = true /\
+  contains_sub (lit "public indirect enum OPE<T: Codable & Sendable>: Codable, Sendable {") Proofs.C10_SWGrammarFile.w_text = true /\
+  contains_sub (lit "public init(from decoder: Decoder) throws {") Proofs.C10_SWGrammarFile.w_text = true /\
+  contains_sub (lit "public struct CodableVoid: Codable, Sendable, Equatable {}") Proofs.C10_SWGrammarFile.w_text = true /\
+  c10_sw_recognise (firstn (List.length Proofs.C10_SWGrammarFile.w_text - 3) Proofs.C10_SWGrammarFile.w_text) = None /\
+  c10_sw_recognise (Proofs.C10_TSGrammarFile.g_drop_first 123 Proofs.C10_SWGrammarFile.w_text) = None /\
+  c10_sw_recognise (Proofs.C10_TSGrammarFile.g_subst_first 61 58 Proofs.C10_SWGrammarFile.w_text) = None /\
+  c10_sw_recognise (Proofs.C10_TSGrammarFile.g_drop_first 96 Proofs.C10_SWGrammarFile.w_text) = None /\
+  c10_sw_recognise Proofs.C10_SWGrammarFile.w_two_members_two_lines = Some 1%nat /\
+  c10_sw_recognise Proofs.C10_SWGrammarFile.w_two_members_one_line = None /\
+  c10_sw_recognise Proofs.C10_SWGrammarFile.w_struct_without_name = None /\
+  c10_sw_recognise Proofs.C10_SWGrammarFile.w_empty_generics = None /\
+  c10_sw_recognise Proofs.C10_SWGrammarFile.w_member_without_type = None /\
+  c10_sw_recognise Proofs.C10_SWGrammarFile.w_raw_and_payload = None /\
+  c10_sw_recognise Proofs.C10_SWGrammarFile.w_label_class = Some 1%nat /\
+  c10_sw_recognise Proofs.C10_SWGrammarFile.w_label_let = None /\
+  c10_dotted_ok (sw_version Proofs.C10_SWGrammarFile.w_cfg) = true /\
+  Forall Proofs.C10_SWGrammar.c10_swg_decl_ok
+    [Proofs.C10_SWGrammarFile.w_alias_decl; Proofs.C10_SWGrammarFile.w_unit_decl; SWCodableVoid [lit "Codable"; lit "Equatable"]].
+Proof. exact Proofs.C10_SWGrammarFile.C10_swift_grammar_nonvacuous. Qed.
+Print Assumptions C10_grammar_swift_witness.
+
+(* the finding class C10-swift-label is a defect of the GRAMMAR, and the recogniser sees it: a struct with a property named `let`
+   is in dom_C10 and in the class, its file is lexically balanced, contains `public init(let: String)` and is rejected *)
+Theorem C10_swift_label_rejected :
+  exists text, dom_C10 CSW Proofs.C10_SWGrammarFile.w_label_prog = true /\
+    known_C10 CSW [] Proofs.C10_SWGrammarFile.w_label_prog = ["C10-swift-label"%string] /\
+    sw_generate uc_exec Proofs.C10_SWGrammarFile.w_cfg Proofs.C10_SWGrammarFile.w_label_prog = Ok text /\
+    contains_sub (lit "public init(let: String)") text = true /\ good_C10_lex CSW text = true /\ c10_sw_recognise text = None.
+Proof. exact Proofs.C10_SWGrammarFile.swift_label_rejected. Qed.
+Print Assumptions C10_swift_label_rejected.
